@@ -1351,8 +1351,19 @@ fn c17_inner(stats: &mut Stats, dir: &std::path::Path, target: &std::path::Path,
                 }
             }
             if matches!(rec.got, Outcome::Err(ErrKind::Io(_))) {
-                // refusing to continue is fine; what matters is that the foreign entry is intact
+                // refusing to continue is fine; what matters is that the foreign entry is intact -
+                // also when the caller simply retries the call that failed
                 check_foreign(dir, &foreign).map_err(|e| ("foreign-entry-changed".to_string(), format!("step {} {}: {}", i, op.short(), e)))?;
+                stats.count("io_errors_caused_by_the_planted_symlink_(call_retried)", 1);
+                let retry = run.step_concrete(rec.cop.clone());
+                for e in &retry.events {
+                    if let Event::Open { name, write: true, is_dir: false, .. } | Event::Write { name, .. } | Event::SetLen { name, .. } = e {
+                        if name == p {
+                            return fail("foreign-entry-touched-on-retry", format!("step {} {}: the call failed with an I/O error because a symlink sits on the next WAL file name; retrying it opened/wrote/resized {:?} through the symlink", i, op.short(), name));
+                        }
+                    }
+                }
+                check_foreign(dir, &foreign).map_err(|e| ("foreign-entry-changed".to_string(), format!("step {} {} (retried after the I/O error): {}", i, op.short(), e)))?;
                 return Ok(());
             }
         } else {
